@@ -9,13 +9,14 @@
 use crate::pipeline::{self, Env, Output};
 use crate::plan::*;
 use crate::rng::{fnv_str, mix, Fnv, Rng};
+use serde::{Deserialize, Serialize};
 use crate::seams::{self, AnyComments, BudgetExceeded, Crash, Phase, SharedComments, TaskCtx, CTX};
 use std::collections::BTreeMap;
 use std::sync::{Arc, Condvar, Mutex};
 use swc_core::common::{errors::HANDLER, sync::Lrc, Globals, SourceMap, GLOBALS};
 use swc_vue_jsx_visitor::Options;
 
-pub const WORKER_STACK: usize = 256 << 20;
+pub const WORKER_STACK: usize = 64 << 20;
 pub const SOLO_STEP_CAP: u32 = 50_000;
 
 #[derive(Clone, Copy, PartialEq, Eq, Debug)]
@@ -24,7 +25,7 @@ enum Holder {
     Worker(u8),
 }
 
-#[derive(Clone, Debug, PartialEq, Eq)]
+#[derive(Clone, Debug, PartialEq, Eq, Serialize, Deserialize)]
 pub enum Outcome {
     Returned(Output),
     /// the pass (or anything under it) panicked on its own
@@ -35,9 +36,11 @@ pub enum Outcome {
     Crashed,
     /// the workload module did not parse (harness problem, not a property violation)
     ParseFail(String),
+    /// the (forked) process running it alone died or hung: real stack overflow, abort, endless loop
+    Died(String),
 }
 
-#[derive(Clone, Debug)]
+#[derive(Clone, Debug, Serialize, Deserialize)]
 pub struct TaskResult {
     pub task: u16,
     pub worker: u8,
@@ -50,7 +53,6 @@ pub struct TaskResult {
     pub residue: bool,
     /// this task started on a worker thread whose previous task ended in a crash/panic
     pub after_crash_on_same_thread: bool,
-    pub sites: Option<Vec<&'static str>>,
 }
 
 struct EpochEnv {
@@ -89,7 +91,7 @@ struct Slot {
     in_transform: bool,
 }
 
-#[derive(Default, Clone, Debug)]
+#[derive(Default, Clone, Debug, Serialize, Deserialize)]
 pub struct Counters {
     pub events: u64,
     pub switches: u32,
@@ -136,7 +138,20 @@ struct St {
 
 pub struct Sim {
     st: Mutex<St>,
-    cv: Condvar,
+    /// one condvar per worker slot, plus the coordinator's at index `workers`
+    cvs: Vec<Condvar>,
+}
+
+impl Sim {
+    fn wake(&self, h: Holder) {
+        match h {
+            Holder::Coord => self.cvs[self.cvs.len() - 1].notify_one(),
+            Holder::Worker(w) => self.cvs[w as usize].notify_one(),
+        }
+    }
+    fn coord_cv(&self) -> &Condvar {
+        &self.cvs[self.cvs.len() - 1]
+    }
 }
 
 impl St {
@@ -285,12 +300,18 @@ impl Sim {
         if a == Action::Resume(w) {
             return; // fast path: keep the baton
         }
-        st.pending = Some(a);
         st.slots[w as usize].parked = true;
-        st.holder = Holder::Coord;
-        self.cv.notify_all();
+        if let Action::Resume(other) = a {
+            // direct hand-off to the other parked worker
+            st.holder = Holder::Worker(other);
+            self.wake(Holder::Worker(other));
+        } else {
+            st.pending = Some(a);
+            st.holder = Holder::Coord;
+            self.wake(Holder::Coord);
+        }
         while st.holder != Holder::Worker(w) {
-            st = self.cv.wait(st).unwrap();
+            st = self.cvs[w as usize].wait(st).unwrap();
         }
         st.slots[w as usize].parked = false;
     }
@@ -302,7 +323,7 @@ fn worker_main(sim: Arc<Sim>, w: u8, key_seed: u64) {
         let job = {
             let mut st = sim.st.lock().unwrap();
             while st.holder != Holder::Worker(w) {
-                st = sim.cv.wait(st).unwrap();
+                st = sim.cvs[w as usize].wait(st).unwrap();
             }
             st.slots[w as usize].mailbox.take()
         };
@@ -311,7 +332,7 @@ fn worker_main(sim: Arc<Sim>, w: u8, key_seed: u64) {
             Some(Job::Exit) => {
                 let mut st = sim.st.lock().unwrap();
                 st.holder = Holder::Coord;
-                sim.cv.notify_all();
+                sim.wake(Holder::Coord);
                 return;
             }
             Some(Job::Run(j)) => {
@@ -350,13 +371,12 @@ fn worker_main(sim: Arc<Sim>, w: u8, key_seed: u64) {
                     fault_fired: r.fault_fired,
                     residue: r.residue,
                     after_crash_on_same_thread: after_crash,
-                    sites: None,
                 });
                 st.slots[w as usize].busy = None;
                 st.slots[w as usize].in_transform = false;
                 st.pending = None;
                 st.holder = Holder::Coord;
-                sim.cv.notify_all();
+                sim.wake(Holder::Coord);
             }
         }
     }
@@ -452,10 +472,11 @@ fn run_task(j: &JobData, w: u8, sim: Option<Arc<Sim>>, record_sites: bool) -> Ta
 
 // ------------------------------------------------------------------ solo (the reference)
 
+#[derive(Clone, Debug, Serialize, Deserialize)]
 pub struct SoloResult {
     pub outcome: Outcome,
     pub steps: u32,
-    pub sites: Vec<&'static str>,
+    pub sites: Vec<String>,
     pub residue: bool,
 }
 
@@ -466,7 +487,8 @@ pub fn parse_options(json: &str) -> Result<Options, String> {
 
 /// `solo(m, o, c)`: fresh OS thread, fresh Globals, fresh SourceMap, fresh
 /// SingleThreadedComments, no noise, no faults, given hash keys.
-pub fn solo(task: &PlanTask, key_seed: u64) -> SoloResult {
+/// Must be called inside a fork (see forked.rs); `oracle::References` does that.
+pub fn solo_here(task: &PlanTask, key_seed: u64) -> SoloResult {
     let mut t = task.clone();
     t.crash_at = None;
     t.emitter_crash_at = None;
@@ -478,7 +500,7 @@ pub fn solo(task: &PlanTask, key_seed: u64) -> SoloResult {
         .spawn(move || {
             seams::set_thread_keyseed(key_seed);
             let r = run_task(&j, 0, None, true);
-            SoloResult { outcome: r.outcome, steps: r.steps, sites: r.sites.unwrap_or_default(), residue: r.residue }
+            SoloResult { outcome: r.outcome, steps: r.steps, sites: r.sites.unwrap_or_default().into_iter().map(String::from).collect(), residue: r.residue }
         })
         .expect("spawn solo thread")
         .join()
@@ -487,6 +509,7 @@ pub fn solo(task: &PlanTask, key_seed: u64) -> SoloResult {
 
 // ------------------------------------------------------------------ executor
 
+#[derive(Clone, Debug, Serialize, Deserialize)]
 pub struct RunRecord {
     pub results: Vec<TaskResult>,
     pub trace: Vec<Action>,
@@ -543,7 +566,7 @@ pub fn execute(plan: &Plan, script: Option<&[Action]>, budgets: &[u32]) -> RunRe
             results: vec![],
             task_keys: plan.tasks.iter().map(|t| fnv_str(&t.key())).collect(),
         }),
-        cv: Condvar::new(),
+        cvs: (0..nw + 1).map(|_| Condvar::new()).collect(),
     });
     let spawn = |w: usize, generation: u32| {
         let sim = sim.clone();
@@ -561,7 +584,7 @@ pub fn execute(plan: &Plan, script: Option<&[Action]>, budgets: &[u32]) -> RunRe
         let act = {
             let mut st = sim.st.lock().unwrap();
             while st.holder != Holder::Coord {
-                st = sim.cv.wait(st).unwrap();
+                st = sim.coord_cv().wait(st).unwrap();
             }
             match st.pending.take() {
                 Some(a) => Some(a),
@@ -573,7 +596,7 @@ pub fn execute(plan: &Plan, script: Option<&[Action]>, budgets: &[u32]) -> RunRe
             Action::Resume(w) => {
                 let mut st = sim.st.lock().unwrap();
                 st.holder = Holder::Worker(w);
-                sim.cv.notify_all();
+                sim.wake(Holder::Worker(w));
             }
             Action::Dispatch(w) => {
                 let mut st = sim.st.lock().unwrap();
@@ -593,7 +616,7 @@ pub fn execute(plan: &Plan, script: Option<&[Action]>, budgets: &[u32]) -> RunRe
                 st.slots[w as usize].busy = Some(ti as u16);
                 st.slots[w as usize].mailbox = Some(Job::Run(Box::new(job)));
                 st.holder = Holder::Worker(w);
-                sim.cv.notify_all();
+                sim.wake(Holder::Worker(w));
             }
             Action::Replace(w) => {
                 {
@@ -602,9 +625,9 @@ pub fn execute(plan: &Plan, script: Option<&[Action]>, budgets: &[u32]) -> RunRe
                     st.c.worker_replaced += 1;
                     st.slots[w as usize].mailbox = Some(Job::Exit);
                     st.holder = Holder::Worker(w);
-                    sim.cv.notify_all();
+                    sim.wake(Holder::Worker(w));
                     while st.holder != Holder::Coord {
-                        st = sim.cv.wait(st).unwrap();
+                        st = sim.coord_cv().wait(st).unwrap();
                     }
                     st.slots[w as usize].generation += 1;
                     st.slots[w as usize].last_task_crashed = false;
@@ -632,9 +655,9 @@ pub fn execute(plan: &Plan, script: Option<&[Action]>, budgets: &[u32]) -> RunRe
             let mut st = sim.st.lock().unwrap();
             st.slots[w].mailbox = Some(Job::Exit);
             st.holder = Holder::Worker(w as u8);
-            sim.cv.notify_all();
+            sim.wake(Holder::Worker(w as u8));
             while st.holder != Holder::Coord {
-                st = sim.cv.wait(st).unwrap();
+                st = sim.coord_cv().wait(st).unwrap();
             }
         }
         handles[w].take().unwrap().join().expect("worker thread");
@@ -659,6 +682,7 @@ pub fn execute(plan: &Plan, script: Option<&[Action]>, budgets: &[u32]) -> RunRe
             Outcome::Budget(n) => log.u64(*n as u64),
             Outcome::Crashed => log.str("crashed"),
             Outcome::ParseFail(m) => log.str(m),
+            Outcome::Died(m) => log.str(m),
         }
     }
     let mut inter = st.inter;
